@@ -114,7 +114,7 @@ func mirrorCheck(prop string, props string, rule string) func(c *vx.Ctx) {
 	}
 }
 
-const ruleCommon = "executions = benign 40-event script over 4 heights (validator sets change at heights 3,4,5; one nil round) with every single deviation (insert any alphabet event at any of 41 positions, drop or corrupt any scripted message), in the thorough tier every pair of core-alphabet deviations, plus BFS with canonical-state dedup from 4 script prefixes; oracles run after every event; The alphabet includes vote messages for height 0, votes made out against the previous height's validator set, replays without any precommit, and callers that give up at their k-th kernel round trip (CANCEL:k); poll destinations are reused across polls. "
+const ruleCommon = "executions = benign 40-event script over 4 heights (validator sets change at heights 3,4,5; one nil round) with every single deviation (insert any alphabet event at any of 41 positions, drop or corrupt any scripted message), in the thorough tier every pair of core-alphabet deviations, plus BFS with canonical-state dedup from 4 script prefixes; oracles run after every event; The alphabet includes vote messages for height 0, votes made out against the previous height's validator set, replays without any precommit, and callers that give up at their k-th kernel round trip (CANCEL:k); poll destinations are reused across polls. Every history ends with a closing probe: if the voting view accepted a header other than the honest chain's, the network precommits it and the commit is judged like any other. "
 
 func init() {
 	registry.Checks["ALLA"] = mirrorCheck("ALLA", allProps, ruleCommon)
@@ -145,7 +145,7 @@ func init() {
 	registry.Checks["C11"] = mirrorCheck("C11", "C11", ruleCommon+"per-consumer monitors over everything the gossip and state-machine consumers received (strictly increasing versions, growing proposals and signer sets), currency after the final drain, nil-round precommits delivered; non-trivial as C01")
 }
 
-const ruleBare = " PLUS the bare state machine (real tmstate.StateMachine and consensus manager, the explorer playing the mirror on the round-entrance and round-view channels): benign 36-event script over 3 heights incl. a nil round with every single deviation from a 68-event alphabet (views growing by any vote or proposal for the current, next and next-but-one round, jump-ahead signals, grown views of the round or height already left, committed-header answers, height-committed signal, every strategy answer, timers, driver, late proposal, restart), thorough: pairs within 3 positions, plus BFS from 5 script prefixes with canonical-state dedup; the state machine's main select is a controlled one (harness/tools/selxform): its kernel is held at the select, released pass by pass, and BATCH deviations let 2-3 inputs (scripted, or one of 15 inserted events such as the height-committed signal, a stale view, a timer) become ready together with each select case tried as the one taken first; the same trace monitors run (timer discipline after every pass, decision-due clauses once all inputs are consumed); "
+const ruleBare = " PLUS the bare state machine (real tmstate.StateMachine and consensus manager, the explorer playing the mirror on the round-entrance and round-view channels): benign 36-event script over 3 heights incl. a nil round with every single deviation from a 68-event alphabet (views growing by any vote or proposal for the current, next and next-but-one round, jump-ahead signals, grown views of the round or height already left, committed-header answers, height-committed signal, every strategy answer, timers, driver, late proposal, restart), thorough: pairs within 3 positions, plus BFS from 5 script prefixes with canonical-state dedup; the state machine's main select is a controlled one (harness/tools/selxform): its kernel is held at the select, released pass by pass, and BATCH deviations let 2-3 inputs (scripted, or one of 15 inserted events such as the height-committed signal, a stale view, a timer) become ready together with each select case tried as the one taken first; a lagging reader gets coalesced views (the scripted event plus every set of up to 3 further votes of the round before the next read); the same trace monitors run (timer discipline after every pass, decision-due clauses once all inputs are consumed); "
 
 const ruleNode = "executions = one complete real engine (tmengine.New: mirror + state machine + consensus manager) in a synctest bubble with the harness as network, consensus strategy (every call blocks until released), round timer, driver and gossip consumer; benign 54-event script over 6 heights (validator sets change every height from 3, own key absent at height 5, one nil round by proposal timeout) with every single deviation (insert any alphabet event at any position, drop any scripted event, replace any strategy answer), in the thorough tier pairs of core deviations over the first 3 heights, plus BFS with canonical-state dedup from 4 script prefixes; a restart matrix (restart after every prefix of the first three heights, then every sequence of up to 2, thorough 3, strategy/timer/vote answers), duplicate strategy proposals, and batched inputs for the state machine's controlled main select (next 2-3 scripted events ready together, each select case first); trace monitors run at every quiescent point; "
 
@@ -243,7 +243,7 @@ var _ = registry
 func init() {
 	registry.Checks["C03"] = func(c *vx.Ctx) {
 		c.Level = "model_checking"
-		c.Rule = "executions = three real engines (tmengine.New, validators 0-2, lock-respecting strategy, harness timers/drivers) plus a Byzantine validator (<1/3) in one synctest bubble; every signature and proposed header appearing in a node's views becomes a network message; default schedule = FIFO delivery to everyone, timers fire only when nothing is deliverable; deviations = drop, postpone or duplicate a delivery, fire a timer early, restart a node, Byzantine proposal (two variants) or prevote/precommit (for any known block, nil or an unknown hash) to one node or all; all single deviations at every step, all single deviations after each adversarial seed prefix and on top of a scripted split-view adversary (the victim never receives the honest proposal but a Byzantine block, the rest commits with Byzantine help), thorough: all pairs of core deviations; the agreement oracle runs after every step; non-trivial = every node finalized at least one height, distinct by the set of (height, block, nodes) finalizations"
+		c.Rule = "executions = three real engines (tmengine.New, validators 0-2, lock-respecting strategy, harness timers/drivers) plus a Byzantine validator (<1/3) in one synctest bubble; every signature and proposed header appearing in a node's views becomes a network message; default schedule = FIFO delivery to everyone, timers fire only when nothing is deliverable; deviations = drop, postpone or duplicate a delivery, fire a timer early, restart a node, Byzantine proposal (two variants) or prevote/precommit (for any known block, nil or an unknown hash) to one node or all; all single deviations at every step, all single deviations after each adversarial seed prefix and on top of three scripted adversaries (split view: the victim never receives the honest proposal but a Byzantine block, the rest commits with Byzantine help; forged relay: copies of honest proposals with rewritten next-validator powers reach the victim first; forged relay with planted keys: the copies' PubKeys list is rewritten, the victim is then shown a Byzantine block with precommits signed by the planted keys and cut off while the rest keeps deciding); lost messages are retransmitted when the network is idle; thorough: all pairs of core deviations; the agreement oracle runs after every step; non-trivial = every node finalized at least one height, distinct by the set of (height, block, nodes) finalizations"
 		heights, maxDev := 2, 1
 		if !c.Quick() {
 			heights, maxDev = 3, 2
